@@ -106,6 +106,89 @@ theorem c19_getnode_is_view (l : L) :
     (actGetNode l).res = .ok l.view ∧ (actGetNode l).l.view = l.view := by
   simp [actGetNode, L.node_sync, L.view_sync]
 
+/-! ### a write descriptor kept open across operations (`stepD`, `flushUp`) -/
+
+/-- an operation that is not refused behaves exactly as without a descriptor: all theorems about `step`
+(refinement, failed-unchanged, move, flush) apply to it -/
+theorem c19_fd_base_is_step (s : StD) (fd : Fd) (op : Op) (hfd : s.fd = some fd) (hb : busyOp fd op = false) :
+    (stepD s (.base op)).1.st = (step false s.st op).1 ∧ (stepD s (.base op)).2 = (step false s.st op).2 := by
+  simp [stepD, hfd, hb]
+
+/-- a refused operation changes nothing -/
+theorem c19_fd_busy_unchanged (s : StD) (fd : Fd) (op : Op) (hfd : s.fd = some fd) (hb : busyOp fd op = true) :
+    stepD s (.base op) = (s, .error .busy) := by
+  simp [stepD, hfd, hb]
+
+/-- opening a descriptor and writing / truncating through it do not change what the file system shows:
+bytes reach the tree only when the descriptor is flushed or closed -/
+theorem c19_fd_buffered (s : StD) (op : OpD)
+    (h : (∃ p sync, op = .fdopen p sync) ∨ (∃ off b, op = .fdwrite off b) ∨ (∃ n, op = .fdtrunc n)) :
+    (stepD s op).1.st.root.view = s.st.root.view := by
+  rcases h with ⟨p, sync, rfl⟩ | ⟨off, b, rfl⟩ | ⟨n, rfl⟩
+  · cases hfd : s.fd with
+    | some fd => simp [stepD, hfd]
+    | none =>
+      cases hr : (atPath p actOpen s.st.root).res with
+      | error e => simpa [stepD, hfd, hr] using ((atPath_sim sim_open p).err _ e hr).2
+      | ok r =>
+        have h1 := (atPath_sim sim_open p).ok _ r hr
+        have : Query (fun t : N => match t with
+            | .file d m => (.ok ((d, m), .file d m) : Except Err ((Bytes × Meta) × N))
+            | .dir .. => .error .isdir) := by
+          intro t a t' ht; cases t <;> simp at ht; exact ht.2.symm
+        simpa [stepD, hfd, hr] using query_atPath this p _ _ _ h1
+  · cases hfd : s.fd <;> simp [stepD, hfd]
+  · cases hfd : s.fd <;> simp [stepD, hfd]
+
+/-- **Flush of a detached descriptor is inert** (repaired code): once the entry of the open file, or an entry
+above it, was unlinked or moved away, flushing or closing the descriptor changes neither the tree nor
+what is published -- in particular it does not bring the old path back. -/
+theorem c19_fd_detached_inert (full : Bool) (s : St) (fd : Fd) (h : fd.att = false) :
+    (flushUp full s fd).1 = s := by
+  unfold flushUp
+  split
+  · rfl
+  · simp [h]
+
+/-- **Flush of an attached descriptor** puts the descriptor's bytes (and the metadata the file had when the
+descriptor was opened) at its path, and nothing else changes. -/
+theorem c19_fd_flush_attached (full : Bool) (s : St) (fd : Fd) (hatt : fd.att = true) (hdirty : fd.clean = false) :
+    (flushUp full s fd).1.root.view =
+      match N.atPath fd.path (sSetFile fd.buf fd.m) s.root.view with
+      | .ok r => r.2
+      | .error _ => s.root.view := by
+  have sim := atPath_sim (sim_setFile full fd.buf fd.m) fd.path
+  cases hr : (atPath fd.path (actSetFile full fd.buf fd.m) s.root).res with
+  | ok u => simp [flushUp, hatt, hdirty, sim.ok _ u hr]
+  | error e => simp [flushUp, hatt, hdirty, (sim.err _ e hr).1, (sim.err _ e hr).2]
+
+/-- … which is a plain write of the bytes when no chmod / touch hit the file since the descriptor was opened
+(guard; otherwise the flush puts the old metadata back: known finding `fd-flush-reverts-metadata`). -/
+theorem c19_fd_flush_is_write_partial (full : Bool) (s : St) (fd : Fd) (hatt : fd.att = true)
+    (hdirty : fd.clean = false) (d0 : Bytes) (hmeta : N.get fd.path s.root.view = .ok (.file d0 fd.m)) :
+    N.atPath fd.path (sWrite fun _ => fd.buf) s.root.view = .ok ((), (flushUp full s fd).1.root.view) := by
+  have h := c19_fd_flush_attached full s fd hatt hdirty
+  rw [setFile_eq_write hmeta] at h
+  rw [h, N.atPath_eq, hmeta]
+  simp [sWrite]
+
+/-- the metadata is indeed put back (model of the code as it is): chmod between open and close is lost -/
+theorem c19_fd_flush_reverts_metadata_counterexample :
+    let ops : List OpD := [.base (.put ⟨["f"], false⟩ (.file [] {})), .fdopen ["f"] true, .fdwrite 0 [1],
+      .base (.chmod ["f"] 0o600), .fdclose]
+    (N.get ["f"] (runD ⟨St.init, none⟩ (ops.take 4)).1.st.root.view) = .ok (.file [] { mode := 0o600 }) ∧
+    (N.get ["f"] (runD ⟨St.init, none⟩ ops).1.st.root.view) = .ok (.file [1] {}) := by
+  decide
+
+/-- a flush that tells the parent (`Flush`, `Close` of a Sync descriptor) persists: what reaches the
+publisher shows the file exactly as the file system does -/
+theorem c19_fd_flush_persists (s : St) (fd : Fd) (hatt : fd.att = true) (hdirty : fd.clean = false)
+    (hok : (atPath fd.path (actSetFile true fd.buf fd.m) s.root).res = .ok ()) :
+    N.get fd.path (flushUp true s fd).1.pub = N.get fd.path (flushUp true s fd).1.root.view := by
+  obtain ⟨nd, hup, hget⟩ := atPath_up (act := actSetFile true fd.buf fd.m)
+    (fun l a h => by cases l <;> simp [actSetFile] at h ⊢ <;> simp [L.view]) fd.path s.root () hok
+  simpa [flushUp, hatt, hdirty, hup] using hget
+
 /-- **The code as found violates the move property**: two different directories with the same name.
 `Mv /a/x/f /b/x/f` returns success and `/a/x/f` is still there (with the repaired comparison it is gone). -/
 def cexOps : List Op :=
@@ -139,6 +222,18 @@ example : (step false exState (.mv ⟨["a", "x"], false⟩ ⟨["b"], false⟩)).
 -- a directory is not moved into itself or below itself (the unrepaired code accepts this and loses the subtree)
 example : (step false exState (.mv ⟨["a"], false⟩ ⟨["a", "x"], false⟩)).2 = .error .intoself := by decide
 example : (step false exState (.mv ⟨["a"], false⟩ ⟨[], true⟩)).2 = .error .intoself := by decide
+-- a descriptor opened on /a/x/f stays attached over unrelated operations and is detached by a move of /a
+example : ((runD ⟨exState, none⟩ [.fdopen ["a", "x", "f"] true, .base (.mkdir ["b", "y"] false false {}),
+    .fdwrite 3 [9]]).1.fd.map (·.att)) = some true := by decide
+example : ((runD ⟨exState, none⟩ [.fdopen ["a", "x", "f"] true, .base (.mv ⟨["a"], false⟩ ⟨["c"], false⟩),
+    .fdwrite 3 [9]]).1.fd.map (·.att)) = some false := by decide
+-- … and closing it afterwards does not bring /a back
+example : (N.get ["a"] (runD ⟨exState, none⟩ [.fdopen ["a", "x", "f"] true,
+    .base (.mv ⟨["a"], false⟩ ⟨["c"], false⟩), .fdwrite 3 [9], .fdclose]).1.st.root.view).toOption.isSome = false := by
+  decide
+-- an attached close writes the bytes
+example : N.get ["a", "x", "f"] (runD ⟨exState, none⟩ [.fdopen ["a", "x", "f"] true, .fdwrite 3 [9],
+    .fdclose]).1.st.root.view = .ok (.file [1, 2, 3, 9] {}) := by decide
 -- flush of a sub-directory publishes a root that is NOT the whole view (the sibling stays stale) …
 example : (step false exState (.flush ["b"])).1.pub ≠ (step false exState (.flush ["b"])).1.root.view := by decide
 -- … while `c19_flush_persists` holds at the flushed path
